@@ -46,6 +46,20 @@ func runCell(c string) (out string) {
 		at, _ := strconv.Atoi(f[8])
 		return runEngineCell(f[:8], at)
 	}
+	if len(f) == 7 && f[0] == "nofile" {
+		// nofile <kind> <limit> <passes> <consumers> <- | pre> <fs>: the ammo file does not exist; grpc/json and the
+		// generic JSON provider open it inside Run: Run fails, nobody stays blocked. Observation: <count> <seq> <closed|blocked> <run class>
+		limit, _ := strconv.Atoi(f[2])
+		passes, _ := strconv.Atoi(f[3])
+		consumers, _ := strconv.Atoi(f[4])
+		fsKind, _ := strconv.Atoi(f[6])
+		b, err := a08.BuildFSOpt(f[1], false, limit, passes, a08.DefaultEntries(1), nil, 0, fsKind, a08.Opts{NoFile: true})
+		if err != nil {
+			return "0 - closed construct"
+		}
+		defer b.Cleanup()
+		return a08.ObserveOpt(b, consumers, -1, 1000, a08.ObsOpts{Pre: f[5] == "pre"}).String()
+	}
 	if len(f) == 6 && f[0] == "dec" {
 		return runDecCell(f)
 	}
@@ -280,6 +294,16 @@ func gen(r *vh.Rand, tier string) []string {
 			for _, passes := range []int{0, 1, 2, 3} {
 				for _, n := range []int{1, 2, 3} {
 					out = append(out, fmt.Sprintf("dec %s %d %d %d %d", k, limit, passes, n, (limit+passes+n)%a08.EOFLayouts))
+				}
+			}
+		}
+	}
+	// the ammo file does not exist, providers that open it inside Run: Run fails, the sink is closed all the same
+	for _, k := range []string{"grpcjson", "decode"} {
+		for _, lp := range [][2]int{{0, 0}, {3, 0}, {0, 2}} {
+			for _, cons := range []int{1, 3} {
+				for _, c := range []string{"-", "pre"} {
+					out = append(out, fmt.Sprintf("nofile %s %d %d %d %s %d", k, lp[0], lp[1], cons, c, (cons+lp[0])%a08.FsKinds))
 				}
 			}
 		}
